@@ -202,7 +202,9 @@ def tournament_cases(draw):
     for _ in range(n):
         members.append({"front": draw(st.integers(1, 3)),
                         "c": [float(draw(st.integers(0, 3))) for _ in range(m)],
-                        "mk": draw(st.sampled_from([True, True, False]))})
+                        "mk": draw(st.sampled_from([True, True, False])),
+                        # ranks/crowding are given, not recomputed: PSOGA runs tournaments on un-ranked swarms
+                        "crowd": draw(st.sampled_from([0.0, 0.5, 1.0, 2.0, float("inf")]))})
     return {"members": members, "seed": draw(st.integers(0, 2 ** 31))}
 
 
@@ -218,6 +220,7 @@ def check_tournament(case):
             ind = Individual([float(j)])
             ind.costs_signed = list(r["c"]) + [r["mk"]]
             ind.features["front_number"] = r["front"]
+            ind.features["crowding_distance"] = r.get("crowd", 0.0)
             pop.append(ind)
     samples = []
     real_sample = random.sample
